@@ -11,11 +11,12 @@ CHECKS={
  "C07":("model_checking","T","exhaustive sweep of the slot formula for every blob length 0..4 MiB plus BFS over registrations/renewals/submissions/replacements with blob sizes on both sides of slot boundaries, triggers (accepted/invalid/refused), completions, restarts; invariant granted = available + held + forfeited after every step, memory = disk = wire","5/C07"),
  "C08":("model_checking","T","BFS over submissions/replacements (3 to_self_delay values, 5 blob kinds), renewals, requests between block and poll, reorgs; every receipt is verified with the client's own verifier, start_block = tower height, read-back is byte-for-byte the last accepted version","5/C08"),
  "C09":("model_checking","T","BFS over every (slots,duration,grace) configuration of a small grid including 0 and 1, registrations/renewals of two users, single and multi-block polls, reorgs across expiry and purge heights; oracle: usability exactly below expiry, purge exactly at expiry+grace, renewals add one duration","5/C09"),
+ "C03":("fault_enumeration","T+crash","for every history of a BFS over the tower alphabet (register, add plain/2-slot/replace/triggered, blocks, split polls, 1-block reorgs; seeds S0,S1,S4; plus a 100-confirmation completion history) and every step of it: the tower is killed right before each durable effect (every sqlite write/commit and every node RPC are crash points) and while idle, chain events that follow happen while it is down, it is restarted on the same file, the client gives up or re-sends, the rest is applied; differential oracle against the uninterrupted runs (took / lost / re-sent), ground truth for confirmed trackers, what the restarted tower tells (memory) included; polls are also combined with a failed block download","5/C03"),
  "C19":("model_checking","X","BFS over connect/disconnect sequences on the real TxIndex (both key types) for N in {1,2,3} with a 3-transaction universe (same key re-appearing in replacement blocks), every key/block ever seen looked up after every operation against a VecDeque reference; deterministic reorg families at the production sizes N=6 and N=100","5/C19"),
  "C17":("exploration","H","finite grid fully enumerated: transaction shapes x ids (incl. ids sharing 31 bytes), round trip, every other id, every single-bit flip, truncations/extensions; signatures: recovery, cross-key, every 1-byte message change, every single-character substitution and truncation","6/C17"),
  "C20":("exploration","H","finite grid fully enumerated through the real from_file/StructOpt/patch_with_options/verify: the interacting group (network x port x user x password x cookie in {absent,file,cli,both} x 7 network-name pairs) exhaustively, every other option with up to 2 (quick) / 3 (thorough) deviations from four uniform backgrounds; full Config equality oracle","6/C20"),
 }
-ENGINE_NOTE={"X":"Trusted: the VecDeque reference model; assumption that a txid never occurs in two live blocks.","H":"Trusted: the oracle written from the statement; the grid is finite and listed in the evidence (rule)."}
+ENGINE_NOTE={"T+crash":"Trusted: a kill between two durable effects equals a kill right before the later one; sqlite statement/transaction atomicity (no torn pages); the simulated bitcoind; the harness mirror of main.rs's bootstrap. Known findings (recorded, not repaired) are listed in known_findings.json and print KNOWN-FINDING lines.","X":"Trusted: the VecDeque reference model; assumption that a txid never occurs in two live blocks.","H":"Trusted: the oracle written from the statement; the grid is finite and listed in the evidence (rule)."}
 checks=[]
 for pid,(level,engine,text,ref) in CHECKS.items():
     checks.append({
@@ -27,7 +28,7 @@ for pid,(level,engine,text,ref) in CHECKS.items():
       "engine":engine,
       "level_claimed":{"category":level,"text":text,"design_ref":"DESIGN.md section "+ref},
       "level_note":ENGINE_NOTE.get(engine,T_NOTE),
-      "technique":"explicit-state model checking of the implementation (BFS by re-execution over a bounded event alphabet, canonical-state deduplication, reference-model oracle)" if level=="model_checking" else "exhaustive enumeration of a finite input grid against the real code (bounded exhaustive exploration, no sampling)",
+      "technique":"exhaustive crash-point enumeration over BFS-generated histories of the real tower (every durable write and node RPC, before/idle), restart + differential oracle" if engine=="T+crash" else "explicit-state model checking of the implementation (BFS by re-execution over a bounded event alphabet, canonical-state deduplication, reference-model oracle)" if level=="model_checking" else "exhaustive enumeration of a finite input grid against the real code (bounded exhaustive exploration, no sampling)",
     })
 claimed=set(CHECKS)
 commits=subprocess.run("git -C /repo log --format=%h --grep='^verif hooks'",shell=True,capture_output=True,text=True).stdout.split()
@@ -38,6 +39,7 @@ m={"version":1,
           "baseline_off_cmd":"cd /repo && cargo test --workspace --no-fail-fast --offline",
           "source_commits":commits,"add_only":True},
  "engines":[{"name":"T","path":"/verif/harness/src/{world,spec,tmodel,checks_t}.rs","serves_properties":sorted(p for p in claimed if CHECKS[p][1]=="T"),"kind_free_text":"explicit-state BFS by re-execution of the real tower over a simulated bitcoind"},
+  {"name":"T+crash","path":"/verif/harness/src/checks_crash.rs","serves_properties":["C03"],"kind_free_text":"crash-point enumeration (hook H1) over engine T histories"},
   {"name":"X","path":"/verif/harness/src/checks_pure.rs","serves_properties":["C19"],"kind_free_text":"explicit-state BFS over the real TxIndex against a reference queue"},
   {"name":"H","path":"/verif/harness/src/checks_pure.rs","serves_properties":sorted(p for p in claimed if CHECKS[p][1]=="H"),"kind_free_text":"exhaustive finite input grids over real code"}],
  "checks":checks,
